@@ -24,14 +24,31 @@ def find_loop (repo, func):
     if not isinstance(t, ast.Name) or v is None: continue
     r = _wlen_expr(v)
     if r is not None: cand.append((t.id, r, st))
+  # alternative idiom: (..., wlen, ...) = struct.unpack_from(fmt, BUF[, CUR+k]) with a 2-byte field at header offset 2
+  for n in walk_no_nested(fn):
+    if isinstance(n, ast.Assign) and isinstance(n.value, ast.Call) and call_name(n.value) == 'unpack_from' and len(n.value.args) >= 2:
+      fmt = repo.try_const(func.module, n.value.args[0])
+      tg = n.targets[0]
+      names = [e for e in tg.elts] if isinstance(tg, (ast.Tuple, ast.List)) else [tg]
+      offs = field_offsets(fmt) if isinstance(fmt, str) else None
+      if not offs or len(offs) != len(names): continue
+      off = n.value.args[2] if len(n.value.args) > 2 else None
+      b0, k0 = q.linear(off, None) if off is not None else (None, 0)
+      for (o, sz), nm in zip(offs, names):
+        if o + k0 == 2 and sz == 2 and isinstance(nm, ast.Name):
+          cand.append((nm.id, ('unpack', n.value.args[1], b0), n))
   if len(cand) != 1:
     raise AnalysisError("%s: cannot identify the wire-length variable uniquely (%d candidates)" % (func.qual, len(cand)))
   L = Loop(); L.func = func; L.g = g
-  L.wlen, (buf, hi, lo), L.wlen_stmt = cand[0]
-  L.buf = norm(buf)
-  b2, k2 = q.linear(hi, None); b3, k3 = q.linear(lo, None)
-  if b2 != b3 or k3 - k2 != 1 or k2 != 2:
-    raise AnalysisError("%s: length bytes are not read at cursor+2 / cursor+3 (%s, %s)" % (func.qual, norm(hi), norm(lo)))
+  if cand[0][1][0] == 'unpack':
+    L.wlen, (_, buf, b2), L.wlen_stmt = cand[0]
+    L.buf = norm(buf)
+  else:
+    L.wlen, (buf, hi, lo), L.wlen_stmt = cand[0]
+    L.buf = norm(buf)
+    b2, k2 = q.linear(hi, None); b3, k3 = q.linear(lo, None)
+    if b2 != b3 or k3 - k2 != 1 or k2 != 2:
+      raise AnalysisError("%s: length bytes are not read at cursor+2 / cursor+3 (%s, %s)" % (func.qual, norm(hi), norm(lo)))
   L.cur = b2            # text of cursor expression or None
   L.wlen_node = q.enclosing_stmt_node(g, L.wlen_stmt)
   # enclosing loop
@@ -152,4 +169,20 @@ def return_summary (repo, func, env_for_args):
   rets = [n for n in g.nodes if n.kind in ('return', 'raise_stmt')]
   for p, l in g.exit.pred:
     if p in r and p.kind != 'return' and l != 'exc': out.add('None')
+  return out
+
+def field_offsets (fmt):
+  """[(offset, size)] of each value-producing field of a struct format"""
+  import re
+  order = fmt[0] if fmt and fmt[0] in '@=<>!' else ''
+  body = fmt[len(order):]
+  out = []; pos = 0
+  for cnt, code in re.findall(r'(\d*)([a-zA-Z?])', body):
+    n = int(cnt) if cnt else 1
+    if code in 'sp':
+      sz = struct.calcsize(order + '%d%s' % (n, code)); out.append((pos, sz)); pos += sz; continue
+    one = struct.calcsize(order + code)
+    for i in range(n):
+      if code != 'x': out.append((pos, one))
+      pos += one
   return out
